@@ -187,6 +187,21 @@ def session():
 
     for rc in range(4):
         XSH.aliases[f"f{rc}"] = mk(rc)
+    # a parenthesised group that the recovery loop wraps as a whole is run as a SUBSHELL (`python -m xonsh -c GROUP`,
+    # parsers/base.py p_subproc_atoms_subshell): the child xonsh must be importable, and the in-process recorder cannot see
+    # what runs inside it — note when it happens
+    env["PYTHONPATH"] = "/repo"
+    import xonsh.procs.specs as xps
+
+    orig_run = xps.run_subproc
+
+    def run_subproc(cmds, *a, **kw):
+        for c in cmds:
+            if isinstance(c, (list, tuple)) and list(c[:3]) == [sys.executable, "-m", "xonsh"]:
+                _SESSION["subshell"] = True
+        return orig_run(cmds, *a, **kw)
+
+    xps.run_subproc = run_subproc
     _SESSION["execer"] = execer
     _SESSION["XSH"] = XSH
     return execer
@@ -201,6 +216,7 @@ def run_impl(src, fl, real=False):
             tf.write(repr((src, fl, real)) + "\n")
     LOG.clear()
     XSH.lastcmd = None
+    _SESSION["subshell"] = False
     logf = None
     if os.environ.get("XV_C05_TRACE"):
         import faulthandler
@@ -248,6 +264,8 @@ def run_impl(src, fl, real=False):
     log = list(LOG)
     if real:
         log = open(logf).read().split()
+    elif _SESSION.get("subshell"):
+        out = ["subshell", ""]
     return log, out
 
 
@@ -319,6 +337,9 @@ def judge(ctx, stream, prog, fl, src, real, obs):
     obs_c = (obs[0], obs[1])
     if obs[1] is not None and obs[1][0] == "syntax":
         ctx.count("unparsable-shape (C03's business)")
+        return
+    if obs[1] is not None and obs[1][0] == "subshell":
+        ctx.count("group ran as a subshell (xonsh -c): invisible to in-process aliases; judged in the real-children stream")
         return
     faithful = obs_c == (impl_m[0], impl_m[1])
     # the two faces of the known sub-chain defect: the sub-chain is replaced by its last operand, or that operand stays
@@ -551,6 +572,9 @@ def replay(ctx, path):
         return common.EXIT_INFRA
     print("executed:", obs[0], "raised:", obs[1])
     print("truth table: executed:", spec_m[0], "raised:", spec_m[1])
+    if obs[1] is not None and obs[1][0] in ("syntax", "subshell"):
+        print("not judged by this check (shape rejected by the parser / group run as a subshell)")
+        return common.EXIT_OK
     bad = (obs[0], obs[1]) != (spec_m[0], spec_m[1])
     print(f"VIOLATION property={ID} replay={path}" if bad else "property holds on this program")
     return common.EXIT_VIOLATION if bad else common.EXIT_OK
